@@ -1,0 +1,366 @@
+/*
+ * Verification facade: the complete crate-private client implementation `MqttClientImpl`
+ * (operation intake, state transitions, packet-event dispatch, client events captured
+ * synchronously through a listener).  Add-only; used by the lifecycle correspondence check.
+ *
+ * Every call answers `<outcome> <snapshot>`:
+ *   outcome  = ok | err:<Kind> | panic | some:<State> | none | ...   (per call, see below)
+ *   snapshot = cur=<State> des=<State> stop=<none|plain|disc> connack=<-|ok|fail> disc=<0|1> err=<-|Kind>
+ *              eng=<engine state> ev=[<client events since the last call>] res=[<operation results since the last call>]
+ * client events: Attempt | Success | Failure:<Kind>:<connack 0|1> | Disconnection:<Kind>:<disconnect 0|1> | Stopped | Publish
+ */
+
+use crate::client::*;
+use crate::error::GneissError;
+use crate::mqtt::*;
+use crate::protocol::ProtocolStateType;
+use crate::verif::client::{state_from_token, state_to_token};
+use crate::verif::options::{client_options_from_text, connect_options_from_text};
+use crate::verif::text::*;
+
+use std::panic::{catch_unwind, AssertUnwindSafe};
+use std::sync::{Arc, Mutex};
+
+pub struct Client2 {
+    client: MqttClientImpl,
+    events: Arc<Mutex<Vec<String>>>,
+    results: Arc<Mutex<Vec<String>>>,
+    next_operation: u64,
+}
+
+fn engine_state_name(state: ProtocolStateType) -> &'static str {
+    match state {
+        ProtocolStateType::Disconnected => "Disconnected",
+        ProtocolStateType::PendingConnack => "PendingConnack",
+        ProtocolStateType::Connected => "Connected",
+        ProtocolStateType::PendingDisconnect => "PendingDisconnect",
+        ProtocolStateType::Halted => "Halted",
+    }
+}
+
+pub fn client_event_to_text(event: &ClientEvent) -> String {
+    match event {
+        ClientEvent::ConnectionAttempt(_) => "Attempt".to_string(),
+        ClientEvent::ConnectionSuccess(_) => "Success".to_string(),
+        ClientEvent::ConnectionFailure(e) => format!("Failure:{}:{}", error_kind(&e.error), if e.connack.is_some() { 1 } else { 0 }),
+        ClientEvent::Disconnection(e) => format!("Disconnection:{}:{}", error_kind(&e.error), if e.disconnect.is_some() { 1 } else { 0 }),
+        ClientEvent::Stopped(_) => "Stopped".to_string(),
+        ClientEvent::PublishReceived(_) => "Publish".to_string(),
+    }
+}
+
+fn error_from_kind(kind: &str) -> TextResult<GneissError> {
+    match kind {
+        "ConnectionClosed" => Ok(GneissError::new_connection_closed("verif")),
+        "ConnectionEstablishmentFailure" => Ok(GneissError::new_connection_establishment_failure("verif")),
+        "ProtocolError" => Ok(GneissError::new_protocol_error("verif")),
+        "InternalStateError" => Ok(GneissError::new_internal_state_error("verif")),
+        "UserInitiatedDisconnect" => Ok(GneissError::new_user_initiated_disconnect()),
+        "DecodingFailure" => Ok(GneissError::new_decoding_failure("verif")),
+        "EncodingFailure" => Ok(GneissError::new_encoding_failure("verif")),
+        "Unimplemented" => Ok(GneissError::new_unimplemented("verif")),
+        "InvalidInboundTopicAlias" => Ok(GneissError::new_inbound_topic_alias_not_valid("verif")),
+        "OfflineQueuePolicyFailed" => Ok(GneissError::new_offline_queue_policy_failed()),
+        "AckTimeout" => Ok(GneissError::new_ack_timeout()),
+        "ClientClosed" => Ok(GneissError::new_client_closed()),
+        "StdIoError" => Ok(GneissError::new_std_io_error("verif")),
+        "OtherError" => Ok(GneissError::new_other_error("verif")),
+        "PacketValidationFailure" => Ok(GneissError::new_packet_validation(PacketType::Publish, "verif")),
+        "MaxInterruptedRetriesExceeded" => Ok(GneissError::new_max_interrupted_retries_exceeded_error("verif")),
+        _ => Err(format!("unsupported error kind {}", kind)),
+    }
+}
+
+fn outcome_of<T>(result: std::thread::Result<crate::error::GneissResult<T>>) -> String {
+    match result {
+        Ok(Ok(_)) => "ok".to_string(),
+        Ok(Err(e)) => format!("err:{}", error_kind(&e)),
+        Err(_) => "panic".to_string(),
+    }
+}
+
+impl Client2 {
+
+    /// tokens: 11 client-option tokens (verif::options order) `|` connect-option tokens
+    pub fn new(tokens: &[&str]) -> TextResult<Client2> {
+        let bar = tokens.iter().position(|t| *t == "|").ok_or("client2: missing |")?;
+        let client_options = client_options_from_text(&tokens[..bar])?;
+        let connect_options = connect_options_from_text(&tokens[bar + 1..])?;
+        let mut client = MqttClientImpl::new(client_options, connect_options, Box::new(|event, listener| { (listener)(event) }));
+        let events = Arc::new(Mutex::new(Vec::new()));
+        let sink = events.clone();
+        let listener: ClientEventListener = Arc::new(move |event: Arc<ClientEvent>| {
+            sink.lock().unwrap().push(client_event_to_text(&event));
+        });
+        client.handle_incoming_operation(OperationOptions::AddListener(1, listener));
+        Ok(Client2 { client, events, results: Arc::new(Mutex::new(Vec::new())), next_operation: 1 })
+    }
+
+    pub fn snapshot(&self) -> String {
+        let events: Vec<String> = std::mem::take(&mut *self.events.lock().unwrap());
+        let results: Vec<String> = std::mem::take(&mut *self.results.lock().unwrap());
+        format!("cur={} des={} stop={} connack={} disc={} err={} eng={} ev=[{}] res=[{}]",
+            state_to_token(self.client.get_current_state()),
+            state_to_token(self.client.verif_desired_state()),
+            match self.client.verif_stop_shape() { 0 => "none", 1 => "plain", _ => "disc" },
+            match self.client.verif_last_connack_success() { None => "-", Some(true) => "ok", Some(false) => "fail" },
+            if self.client.verif_has_last_disconnect() { 1 } else { 0 },
+            match self.client.verif_last_error() { None => "-", Some(e) => error_kind(e) },
+            engine_state_name(self.client.get_protocol_state()),
+            events.join(","), results.join(","))
+    }
+
+    fn finish(&self, outcome: String) -> String { format!("{} {}", outcome, self.snapshot()) }
+
+    /// START | STOP | STOP <DISCONNECT packet tokens> | SHUTDOWN | LISTENER | USER <PUBLISH|SUBSCRIBE|UNSUBSCRIBE packet tokens>
+    /// answers `ok` (or `panic`), for USER `ok id=<n>`; the operation's result appears later as `<n>:ok` / `<n>:err:<Kind>`
+    pub fn operation(&mut self, tokens: &[&str]) -> TextResult<String> {
+        if tokens.is_empty() { return Err("operation: too few tokens".to_string()); }
+        let mut suffix = String::new();
+        let operation =
+            match tokens[0] {
+                "START" => OperationOptions::Start(None),
+                "STOP" => {
+                    let disconnect = if tokens.len() > 1 { Some(Box::new(packet_from_tokens(&tokens[1..])?)) } else { None };
+                    if let Some(packet) = &disconnect { if !matches!(**packet, MqttPacket::Disconnect(_)) { return Err("STOP: not a DISCONNECT".to_string()); } }
+                    OperationOptions::Stop(StopOptionsInternal { disconnect })
+                }
+                "SHUTDOWN" => OperationOptions::Shutdown(),
+                "LISTENER" => OperationOptions::RemoveListener(77),
+                "USER" => {
+                    let packet = packet_from_tokens(&tokens[1..])?;
+                    let id = self.next_operation;
+                    self.next_operation += 1;
+                    suffix = format!(" id={}", id);
+                    let sink = self.results.clone();
+                    match &packet {
+                        MqttPacket::Publish(_) => {
+                            let handler: ResponseHandler<PublishResult> = Box::new(move |result| {
+                                sink.lock().unwrap().push(match result { Ok(_) => format!("{}:ok", id), Err(e) => format!("{}:err:{}", id, error_kind(&e)) });
+                                Ok(())
+                            });
+                            OperationOptions::Publish(Box::new(packet), PublishOptionsInternal { options: PublishOptions::default(), response_handler: Some(handler) })
+                        }
+                        MqttPacket::Subscribe(_) => {
+                            let handler: ResponseHandler<SubscribeResult> = Box::new(move |result| {
+                                sink.lock().unwrap().push(match result { Ok(_) => format!("{}:ok", id), Err(e) => format!("{}:err:{}", id, error_kind(&e)) });
+                                Ok(())
+                            });
+                            OperationOptions::Subscribe(Box::new(packet), SubscribeOptionsInternal { options: SubscribeOptions::default(), response_handler: Some(handler) })
+                        }
+                        MqttPacket::Unsubscribe(_) => {
+                            let handler: ResponseHandler<UnsubscribeResult> = Box::new(move |result| {
+                                sink.lock().unwrap().push(match result { Ok(_) => format!("{}:ok", id), Err(e) => format!("{}:err:{}", id, error_kind(&e)) });
+                                Ok(())
+                            });
+                            OperationOptions::Unsubscribe(Box::new(packet), UnsubscribeOptionsInternal { options: UnsubscribeOptions::default(), response_handler: Some(handler) })
+                        }
+                        _ => { return Err("USER: unsupported packet kind".to_string()); }
+                    }
+                }
+                _ => { return Err(format!("unknown operation {}", tokens[0])); }
+            };
+        let client = &mut self.client;
+        let result = catch_unwind(AssertUnwindSafe(|| { client.handle_incoming_operation(operation); Ok(()) }));
+        Ok(self.finish(format!("{}{}", outcome_of(result), suffix)))
+    }
+
+    pub fn transition_to_state(&mut self, state: &str) -> TextResult<String> {
+        let target = state_from_token(state)?;
+        let client = &mut self.client;
+        let result = catch_unwind(AssertUnwindSafe(|| client.transition_to_state(target)));
+        Ok(self.finish(outcome_of(result)))
+    }
+
+    /// `some:<State>` | `none`
+    pub fn compute_optional_state_transition(&self) -> String {
+        let outcome = match self.client.compute_optional_state_transition() { None => "none".to_string(), Some(s) => format!("some:{}", state_to_token(s)) };
+        self.finish(outcome)
+    }
+
+    pub fn handle_incoming_bytes(&mut self, bytes: &[u8]) -> String {
+        let client = &mut self.client;
+        let result = catch_unwind(AssertUnwindSafe(|| client.handle_incoming_bytes(bytes)));
+        self.finish(outcome_of(result))
+    }
+
+    pub fn handle_write_completion(&mut self) -> String {
+        let client = &mut self.client;
+        let result = catch_unwind(AssertUnwindSafe(|| client.handle_write_completion()));
+        self.finish(outcome_of(result))
+    }
+
+    /// service into the drivers' buffer (capacity 4096) that already holds `fill` bytes; answers `<outcome> out=x<appended bytes> <snapshot>`
+    pub fn handle_service(&mut self, fill: usize) -> String {
+        let mut buffer: Vec<u8> = Vec::with_capacity(4096);
+        buffer.resize(fill, 0);
+        let client = &mut self.client;
+        let buffer_ref = &mut buffer;
+        let result = catch_unwind(AssertUnwindSafe(|| client.handle_service(buffer_ref)));
+        let appended = if buffer.len() >= fill { hex(&buffer[fill..]) } else { "x".to_string() };
+        format!("{} out={} {}", outcome_of(result), appended, self.snapshot())
+    }
+
+    /// `due` (a service time is reported and it is not in the future) | `later` | `never`
+    pub fn next_service(&mut self) -> String {
+        let client = &mut self.client;
+        let result = catch_unwind(AssertUnwindSafe(|| client.get_next_connected_service_time()));
+        let outcome = match result {
+            Ok(None) => "never",
+            Ok(Some(t)) => if t <= std::time::Instant::now() { "due" } else { "later" },
+            Err(_) => "panic",
+        };
+        self.finish(outcome.to_string())
+    }
+
+    pub fn apply_error(&mut self, kind: &str) -> TextResult<String> {
+        self.client.apply_error(error_from_kind(kind)?);
+        Ok(self.finish("ok".to_string()))
+    }
+
+    /// the whole compute_optional_state_transition table: for every current x desired x stop shape (none, plain, disc), in that nesting
+    /// order over (Stopped, Connecting, Connected, PendingReconnect, Shutdown); the stop shape is installed through real Start / Stop
+    /// operations, the states through the verif setters.  Answers `ok <75 comma-separated cells>` (`-` = None)
+    pub fn transition_table(&mut self) -> TextResult<String> {
+        let states = ["Stopped", "Connecting", "Connected", "PendingReconnect", "Shutdown"];
+        let mut cells = Vec::new();
+        for current in states {
+            for desired in states {
+                for shape in 0..3u8 {
+                    match shape {
+                        0 => self.client.handle_incoming_operation(OperationOptions::Start(None)),
+                        1 => self.client.handle_incoming_operation(OperationOptions::Stop(StopOptionsInternal { disconnect: None })),
+                        _ => {
+                            let packet = MqttPacket::Disconnect(DisconnectPacket::default());
+                            self.client.handle_incoming_operation(OperationOptions::Stop(StopOptionsInternal { disconnect: Some(Box::new(packet)) }))
+                        }
+                    }
+                    if self.client.verif_stop_shape() != shape { return Err("stop shape not installed".to_string()); }
+                    self.client.verif_set_current_state(state_from_token(current)?);
+                    self.client.verif_set_desired_state(state_from_token(desired)?);
+                    cells.push(match self.client.compute_optional_state_transition() { None => "-".to_string(), Some(s) => state_to_token(s).to_string() });
+                }
+            }
+        }
+        self.client.verif_set_current_state(state_from_token("Stopped")?);
+        self.client.verif_set_desired_state(state_from_token("Stopped")?);
+        let _ = self.snapshot();
+        Ok(format!("ok {}", cells.join(",")))
+    }
+}
+
+// ---------------------------------------------------------------------------------------------
+// WebsocketStreamWrapper (client/synchronous/threaded/ws_stream.rs) over an in-memory transport
+// ---------------------------------------------------------------------------------------------
+
+/// Scripted in-memory transport under the WebSocket adapter.
+#[cfg(feature = "threaded-websockets")]
+pub mod ws {
+    use crate::client::synchronous::threaded::verif_ws::WebsocketStreamWrapper;
+    use crate::verif::text::hex;
+    use std::collections::VecDeque;
+    use std::io::{ErrorKind, Read, Write};
+    use std::panic::{catch_unwind, AssertUnwindSafe};
+    use std::sync::{Arc, Mutex};
+
+    /// what the transport does on the next read / write call
+    #[derive(Clone, Debug)]
+    pub enum Step {
+        /// bytes that are available to read (a burst)
+        Data(Vec<u8>),
+        /// the transport has nothing right now (WouldBlock once)
+        Block,
+        /// the transport fails (connection reset)
+        Fail,
+    }
+
+    /// shared state of the in-memory transport
+    #[derive(Default)]
+    pub struct Shared {
+        /// read script
+        pub incoming: VecDeque<Step>,
+        /// write script: Some(n) = accept at most n bytes, None = WouldBlock; exhausted = accept everything
+        pub write_script: VecDeque<Option<usize>>,
+        /// everything the transport accepted
+        pub written: Vec<u8>,
+    }
+
+    /// in-memory Read + Write
+    pub struct MemStream {
+        /// shared with the harness
+        pub shared: Arc<Mutex<Shared>>,
+    }
+
+    impl Read for MemStream {
+        fn read(&mut self, buf: &mut [u8]) -> std::io::Result<usize> {
+            let mut s = self.shared.lock().unwrap();
+            match s.incoming.pop_front() {
+                None | Some(Step::Block) => Err(std::io::Error::new(ErrorKind::WouldBlock, "scripted")),
+                Some(Step::Fail) => Err(std::io::Error::new(ErrorKind::ConnectionReset, "scripted")),
+                Some(Step::Data(mut data)) => {
+                    let n = buf.len().min(data.len());
+                    buf[..n].copy_from_slice(&data[..n]);
+                    if n < data.len() { let rest = data.split_off(n); s.incoming.push_front(Step::Data(rest)); }
+                    Ok(n)
+                }
+            }
+        }
+    }
+
+    impl Write for MemStream {
+        fn write(&mut self, buf: &[u8]) -> std::io::Result<usize> {
+            let mut s = self.shared.lock().unwrap();
+            match s.write_script.pop_front() {
+                Some(None) => Err(std::io::Error::new(ErrorKind::WouldBlock, "scripted")),
+                Some(Some(n)) => { let k = n.min(buf.len()); s.written.extend_from_slice(&buf[..k]); Ok(k) }
+                None => { s.written.extend_from_slice(buf); Ok(buf.len()) }
+            }
+        }
+        fn flush(&mut self) -> std::io::Result<()> { Ok(()) }
+    }
+
+    /// the adapter under test over the in-memory transport (client role, no handshake)
+    pub struct Adapter { wrapper: WebsocketStreamWrapper<MemStream>, /// transport state
+        pub shared: Arc<Mutex<Shared>> }
+
+    impl Adapter {
+        /// new adapter over a fresh transport
+        pub fn new() -> Adapter {
+            let shared = Arc::new(Mutex::new(Shared::default()));
+            let socket = tungstenite::protocol::WebSocket::from_raw_socket(MemStream { shared: shared.clone() }, tungstenite::protocol::Role::Client, None);
+            Adapter { wrapper: WebsocketStreamWrapper::new(socket), shared }
+        }
+
+        /// one `Read::read` with a buffer of `size` bytes (prefilled with 0xEE): `ok:<n>:x<buffer[..min(n,size)]>` | `wouldblock` | `err:<kind>` | `panic`
+        pub fn read(&mut self, size: usize) -> String {
+            let mut buffer = vec![0xEEu8; size];
+            let wrapper = &mut self.wrapper;
+            let buffer_ref = &mut buffer;
+            match catch_unwind(AssertUnwindSafe(|| wrapper.read(buffer_ref.as_mut_slice()))) {
+                Ok(Ok(n)) => format!("ok:{}:{}", n, hex(&buffer[..n.min(size)])),
+                Ok(Err(e)) => if e.kind() == ErrorKind::WouldBlock { "wouldblock".to_string() } else { format!("err:{:?}", e.kind()) },
+                Err(_) => "panic".to_string(),
+            }
+        }
+
+        /// one `Write::write`: `ok:<n>` | `wouldblock` | `err:<kind>` | `panic`
+        pub fn write(&mut self, data: &[u8]) -> String {
+            let wrapper = &mut self.wrapper;
+            match catch_unwind(AssertUnwindSafe(|| wrapper.write(data))) {
+                Ok(Ok(n)) => format!("ok:{}", n),
+                Ok(Err(e)) => if e.kind() == ErrorKind::WouldBlock { "wouldblock".to_string() } else { format!("err:{:?}", e.kind()) },
+                Err(_) => "panic".to_string(),
+            }
+        }
+
+        /// one `Write::flush`
+        pub fn flush(&mut self) -> String {
+            let wrapper = &mut self.wrapper;
+            match catch_unwind(AssertUnwindSafe(|| wrapper.flush())) {
+                Ok(Ok(())) => "ok".to_string(),
+                Ok(Err(e)) => if e.kind() == ErrorKind::WouldBlock { "wouldblock".to_string() } else { format!("err:{:?}", e.kind()) },
+                Err(_) => "panic".to_string(),
+            }
+        }
+    }
+}
